@@ -35,6 +35,7 @@ pub fn generate(prop: &str, tier: &str, seed: u64, outdir: &str) {
         "C17" => gen_c17(&mut out, &mut rng, thorough),
         "C18" => gen_c18(&mut out, &mut rng, thorough),
         "C13" => gen_c13(&mut out, &mut rng, thorough),
+        "C19" => gen_c19(&mut out, &mut rng, thorough),
         _ => {
             eprintln!("no generator for {prop}");
             std::process::exit(2);
@@ -315,5 +316,79 @@ fn gen_c13(out: &mut Out, rng: &mut Rng, thorough: bool) {
     for _ in 0..200 {
         let e = random_expr(rng, 2, &leaves);
         out.req("missing_column", format!("eval {} {}", row_toks(&short), e.to_line()));
+    }
+}
+
+// ------------------------------------------------------------------------------------
+// C19
+
+pub fn c19_leaves() -> Vec<E> {
+    vec![
+        E::Col("a".into()), E::Col("b".into()), E::Col("T.c".into()),
+        E::Lit(V::Int(5)), E::Lit(V::Int(-3)), E::Lit(V::Str("x".into())), E::Lit(V::Null),
+    ]
+}
+
+fn gen_c19(out: &mut Out, rng: &mut Rng, thorough: bool) {
+    let cols: Vec<E> = vec![E::Col("a".into()), E::Col("b".into()), E::Col("c".into())];
+    // every parent/child operator pair on either side, over column leaves (no folding)
+    for outer in BINOPS {
+        for inner in BINOPS {
+            let l = E::Bin(inner, Box::new(cols[0].clone()), Box::new(cols[1].clone()));
+            let e1 = E::Bin(outer, Box::new(l.clone()), Box::new(cols[2].clone()));
+            let e2 = E::Bin(outer, Box::new(cols[2].clone()), Box::new(l));
+            out.req("pair_bin_bin", format!("fmt {}", e1.to_line()));
+            out.req("pair_bin_bin", format!("fmt {}", e2.to_line()));
+        }
+        for inner in UNOPS {
+            let u = E::Un(inner, Box::new(cols[0].clone()));
+            out.req("pair_bin_un", format!("fmt {}", E::Bin(outer, Box::new(u.clone()), Box::new(cols[1].clone())).to_line()));
+            out.req("pair_bin_un", format!("fmt {}", E::Bin(outer, Box::new(cols[1].clone()), Box::new(u)).to_line()));
+            let b = E::Bin(outer, Box::new(cols[0].clone()), Box::new(cols[1].clone()));
+            out.req("pair_un_bin", format!("fmt {}", E::Un(inner, Box::new(b)).to_line()));
+        }
+    }
+    for outer in UNOPS {
+        for inner in UNOPS {
+            let e = E::Un(outer, Box::new(E::Un(inner, Box::new(cols[0].clone()))));
+            out.req("pair_un_un", format!("fmt {}", e.to_line()));
+        }
+    }
+    out.exhaustive.push("every parent/child operator pair (18 x 18) on either side over column leaves".into());
+    // all trees to depth 2 over a small leaf set (thorough: full; quick: sampled), then random to depth 5
+    let leaves = c19_leaves();
+    let mut d1: Vec<E> = vec![];
+    for op in UNOPS {
+        for a in &leaves {
+            d1.push(E::Un(op, Box::new(a.clone())));
+        }
+    }
+    for op in BINOPS {
+        for a in &leaves {
+            for b in &leaves {
+                d1.push(E::Bin(op, Box::new(a.clone()), Box::new(b.clone())));
+            }
+        }
+    }
+    for e in &d1 {
+        out.req("depth1", format!("fmt {}", e.to_line()));
+    }
+    out.exhaustive.push("all depth-1 trees over 7 leaves".into());
+    let n2 = if thorough { 400_000 } else { 30_000 };
+    for _ in 0..n2 {
+        let a = if rng.chance(2, 3) { rng.pick(&d1).clone() } else { rng.pick(&leaves).clone() };
+        let e = if rng.chance(1, 6) {
+            E::Un(*rng.pick(UNOPS), Box::new(a))
+        } else {
+            let b = if rng.chance(2, 3) { rng.pick(&d1).clone() } else { rng.pick(&leaves).clone() };
+            E::Bin(*rng.pick(BINOPS), Box::new(a), Box::new(b))
+        };
+        out.req("depth2", format!("fmt {}", e.to_line()));
+    }
+    let n = if thorough { 600_000 } else { 40_000 };
+    for _ in 0..n {
+        let d = 3 + rng.below(3) as usize;
+        let e = random_expr(rng, d, &leaves);
+        out.req("random_deep", format!("fmt {}", e.to_line()));
     }
 }
